@@ -275,6 +275,16 @@ func NewInst(p Prog) (*Inst, error) {
 					return nil, err
 				}
 
+				// thread 0 owns /d/x (= /d/h) and /d/e, thread 1 owns /f: owner-only
+				// calls (Chmod, Chtimes) are allowed to one thread and refused to the other
+				if i < 2 {
+					for _, name := range [][]string{{"/d/x", "/d/e"}, {"/f"}}[i] {
+						if err := m.Chown(name, u.Uid(), u.Gid()); err != nil {
+							return nil, err
+						}
+					}
+				}
+
 				if err := v.SetUser(u); err != nil {
 					return nil, err
 				}
@@ -683,6 +693,65 @@ func Pairs(fs string, users bool, t []Tmpl) []Prog {
 	}
 
 	return out
+}
+
+// OrderedPairs returns all ordered pairs of templates as 2-thread programs (the
+// threads of a users program act for different users and are not symmetric).
+func OrderedPairs(fs string, users bool, t []Tmpl) []Prog {
+	var out []Prog
+
+	for i := range t {
+		for j := range t {
+			out = append(out, Prog{FS: fs, Users: users, Threads: [][]fsx.Call{t[i], t[j]}})
+		}
+	}
+
+	return out
+}
+
+// UserTemplates is the alphabet of permission-sensitive thread templates for
+// programs whose threads act for two different non-administrator users of one
+// group (thread 0 owns /d/x, /d/h and /d/e, thread 1 owns /f, the rest belongs
+// to root; everything is rwx for all before the program starts): creations with
+// private modes, owner-only attribute changes, and calls whose permission to
+// proceed such a change grants or withdraws.
+func UserTemplates(core bool) []Tmpl {
+	rw := os.O_RDWR
+	t := []Tmpl{
+		{{Op: "H.Open", A: "/d/y", Flag: rw | os.O_CREATE, Perm: 0o600}, {Op: "H.Write", Data: "A"}, {Op: "H.Close"}},
+		one(fsx.Call{Op: "OpenFile", A: "/d/y", Flag: rw | os.O_CREATE | os.O_EXCL, Perm: 0o600}),
+		one(fsx.Call{Op: "Mkdir", A: "/d/y", Perm: 0o700}),
+		{{Op: "H.Open", A: "/d/x", Flag: rw}, {Op: "H.Write", Data: "B"}, {Op: "H.Close"}},
+		one(fsx.Call{Op: "Chmod", A: "/d/x", Perm: 0o600}),
+		one(fsx.Call{Op: "Chmod", A: "/d/e", Perm: 0o700}),
+		one(fsx.Call{Op: "Remove", A: "/d/e/z"}),
+		one(fsx.Call{Op: "Rename", A: "/d/e/z", B: "/d/z"}),
+		one(fsx.Call{Op: "Truncate", A: "/d/x", N: 0}),
+		one(fsx.Call{Op: "Mkdir", A: "/d/e/y", Perm: 0o755}),
+		one(fsx.Call{Op: "Rename", A: "/d/x", B: "/f/x"}),
+		one(fsx.Call{Op: "Chmod", A: "/f", Perm: 0o755}),
+	}
+
+	if core {
+		return t
+	}
+
+	return append(t,
+		one(fsx.Call{Op: "Mkdir", A: "/d/y/s", Perm: 0o755}),
+		one(fsx.Call{Op: "Stat", A: "/d/e/z"}),
+		readFile("/d/x"),
+		readDir("/d/e"),
+		one(fsx.Call{Op: "Link", A: "/d/x", B: "/d/e/l"}),
+		one(fsx.Call{Op: "Link", A: "/f/g", B: "/d/y"}),
+		one(fsx.Call{Op: "Symlink", A: "x", B: "/d/e/s"}),
+		one(fsx.Call{Op: "Chmod", A: "/d/y", Perm: 0o666}),
+		one(fsx.Call{Op: "Remove", A: "/d/y"}),
+		one(fsx.Call{Op: "Remove", A: "/f/g"}),
+		one(fsx.Call{Op: "Chtimes", A: "/d/x", N: 5}),
+		one(fsx.Call{Op: "Chdir", A: "/d/e"}),
+		one(fsx.Call{Op: "CreateTemp", A: "/f", B: "t*"}),
+		one(fsx.Call{Op: "Rename", A: "/f/g", B: "/d/e/g"}),
+	)
 }
 
 // Triples returns all unordered triples (with repetition) as 3-thread programs.
